@@ -155,8 +155,9 @@ CompleteClauses(pre, ev) ==
       lk1  == Lk(pre) \ E
       idle == IdleOf(lk1)
       livePost == Live(post)
-      idlePns == {post.slot[e+1] : e \in idle}
-      busyPns == {post.slot[e+1] : e \in lk1}
+      \* busy paths are those of the jobs still in flight (not "whatever sits in a locked slot")
+      busyPns == UNION {SeqSet(jobsM[q].pns) : q \in BusyPins \ {ev.pin}} \cap livePost
+      idlePns == livePost \ busyPns
       D(pn) == Lookup(ev.dfrac, pn)
       newSet == IF ev.acc THEN SeqSet(ev.new) ELSE {}
       okD    == ev.dfrac_ok /\ \A p \in Live(post) : HasKey(ev.dfrac, p)
